@@ -4,9 +4,9 @@
    Property theorems only: each is closed by `exact` of a lemma proved in Proofs/LifeProofs.v.
    Model: Model/Life.v (gol_rule = ca_functions2d.py:843-856 literally, incl. the fall-through),
    Model/Evolve2D.v (the memoize=False engine of evolve2d, C02). *)
-From Coq Require Import ZArith List Bool.
-From CPL Require Import Model.Base Model.Rules Model.Engine Model.Evolve2D Model.Memo2D Model.Life
-                        Proofs.Evolve2DProofs Proofs.LifeProofs Proofs.LifeMemoProofs.
+From Coq Require Import ZArith List Bool Lia.
+From CPL Require Import Model.Base Model.Rules Model.Engine Model.Evolve2D Model.Memo2D Model.Life Model.LifePatterns
+                        Proofs.Evolve2DProofs Proofs.LifeProofs Proofs.LifeMemoProofs Proofs.LifePatternsProofs.
 Import ListNotations.
 Local Open Scope Z_scope.
 
@@ -165,6 +165,65 @@ Theorem C11_blinker_all_modes : forall (m : mode) (R C : nat) (a b : Z), (5 <= R
   Ok [pattern_grid R C a b BH; pattern_grid R C (a - 1) (b + 1) BV; pattern_grid R C a b BH].
 Proof. exact blinker_all_modes. Qed.
 
+(* ------------------------------------------------------------------ still lifes in general; minimal period; all gliders *)
+
+(* ANY still life: a finite pattern (list of live cells in a p x q box) that the plane step, read with its
+   one-cell halo, gives back in place (decidable: step_check p q cells cells p q 1 1, = still_check), placed
+   anywhere (a, b) on any torus with the halo (p + 2 <= R, q + 2 <= C), is fixed by the torus step *)
+Theorem C11_still_life_general : forall (R C p q : Z) (cells : list (Z * Z)) (a b : Z),
+  step_check p q cells cells p q 1 1 = true -> 0 <= p -> 0 <= q -> p + 2 <= R -> q + 2 <= C ->
+  forall i j, tstep R C (emb R C a b (of_list cells)) i j = emb R C a b (of_list cells) i j.
+Proof. exact still_life_general. Qed.
+
+(* ... and under evolve2d, every memoize mode, any number of steps *)
+Theorem C11_still_life_all_modes : forall (m : mode) (R C : nat) (p q : Z) (cells : list (Z * Z)) (a b : Z) (T : nat),
+  step_check p q cells cells p q 1 1 = true -> 0 <= p -> 0 <= q -> p + 2 <= Z.of_nat R -> q + 2 <= Z.of_nat C ->
+  arr2_of (evolve2d_mode_fixed gol_as_rule2 store_id m 1 Moore tt [pattern_grid R C a b cells] (S T))
+  = Ok (repeat (pattern_grid R C a b cells) (S T)).
+Proof. exact still_life_all_modes. Qed.
+
+(* ANY well-shaped 0/1 grid that the torus Life step maps to itself (no size or shape condition beyond
+   R, C >= 1; also still lifes that touch themselves around the torus) stays fixed, every mode, any T *)
+Theorem C11_fixed_point_stays : forall (m : mode) (R C : nat) (g : grid) (T : nat), (1 <= R)%nat -> (1 <= C)%nat ->
+  (length g = R /\ Forall (fun row => length row = C) g) -> Forall (Forall (fun x => x = 0 \/ x = 1)) g ->
+  life_step_grid g = g ->
+  arr2_of (evolve2d_mode_fixed gol_as_rule2 store_id m 1 Moore tt [g] (S T)) = Ok (repeat g (S T)).
+Proof. exact fixed_point_stays. Qed.
+
+(* the blinker's MINIMAL period is two: after one step the grid differs from the start, after two it is the
+   start; from the horizontal and from the vertical orientation; all R, C >= 5, all placements, all modes *)
+Theorem C11_blinker_minimal_period : forall (m : mode) (R C : nat) (a b : Z), (5 <= R)%nat -> (5 <= C)%nat ->
+  exists g1,
+    arr2_of (evolve2d_mode_fixed gol_as_rule2 store_id m 1 Moore tt [pattern_grid R C a b BH] 3)
+    = Ok [pattern_grid R C a b BH; g1; pattern_grid R C a b BH]
+    /\ g1 <> pattern_grid R C a b BH.
+Proof. exact blinker_minimal_period_h. Qed.
+
+Theorem C11_blinker_minimal_period_vertical : forall (m : mode) (R C : nat) (a b : Z), (5 <= R)%nat -> (5 <= C)%nat ->
+  exists g1,
+    arr2_of (evolve2d_mode_fixed gol_as_rule2 store_id m 1 Moore tt [pattern_grid R C a b BV] 3)
+    = Ok [pattern_grid R C a b BV; g1; pattern_grid R C a b BV]
+    /\ g1 <> pattern_grid R C a b BV.
+Proof. exact blinker_minimal_period_v. Qed.
+
+(* ALL gliders: gl d k is the glider travelling in direction gdir d (d = 0..3: (1,1), (1,-1), (-1,-1), (-1,1))
+   in phase k = 0..3 (the quarter turns of G0..G3; these 16 patterns contain all eight images of a glider under
+   the symmetries of the square).  Each of the 16 one-step transitions is a decidable plane check
+   (glider_checks).  Four steps from ANY of them, ANY torus R, C >= 5, ANY placement: displaced by gdir d. *)
+Theorem C11_glider_any_direction_period4 : forall (d k : nat) (R C a b : Z),
+  (d < 4)%nat -> (k < 4)%nat -> 5 <= R -> 5 <= C -> forall i j,
+  tstep R C (tstep R C (tstep R C (tstep R C (emb R C a b (of_list (gl d k)))))) i j
+  = emb R C (a + fst (gdir d)) (b + snd (gdir d)) (of_list (gl d k)) i j.
+Proof. exact glider_any_direction_period4. Qed.
+
+Theorem C11_glider_any_direction_all_modes : forall (m : mode) (d k : nat) (R C : nat) (a b : Z),
+  (d < 4)%nat -> (k < 4)%nat -> (5 <= R)%nat -> (5 <= C)%nat ->
+  exists g1 g2 g3,
+    arr2_of (evolve2d_mode_fixed gol_as_rule2 store_id m 1 Moore tt [pattern_grid R C a b (gl d k)] 5)
+    = Ok [pattern_grid R C a b (gl d k); g1; g2; g3;
+          pattern_grid R C (a + fst (gdir d)) (b + snd (gdir d)) (gl d k)].
+Proof. exact glider_any_direction_all_modes. Qed.
+
 (* ------------------------------------------------------------------ non-vacuity *)
 
 (* the rule distinguishes: birth, survival, death by over- and under-population *)
@@ -226,6 +285,54 @@ Example nv_all_modes :
      = [168; 46; 46]%nat.
 Proof. split; vm_compute; reflexivity. Qed.
 
+(* still lifes: beehive, loaf, boat, tub — each passes the plane check, hence (C11_still_life_general /
+   _all_modes) is fixed anywhere on every torus with the halo, in every mode *)
+Example ex_beehive_still : forall (m : mode) (R C : nat) (a b : Z) (T : nat), (5 <= R)%nat -> (6 <= C)%nat ->
+  arr2_of (evolve2d_mode_fixed gol_as_rule2 store_id m 1 Moore tt [pattern_grid R C a b BEEHIVE] (S T))
+  = Ok (repeat (pattern_grid R C a b BEEHIVE) (S T)).
+Proof. intros. apply (C11_still_life_all_modes m R C 3 4); [vm_compute; reflexivity|lia..]. Qed.
+Example ex_loaf_still : forall (m : mode) (R C : nat) (a b : Z) (T : nat), (6 <= R)%nat -> (6 <= C)%nat ->
+  arr2_of (evolve2d_mode_fixed gol_as_rule2 store_id m 1 Moore tt [pattern_grid R C a b LOAF] (S T))
+  = Ok (repeat (pattern_grid R C a b LOAF) (S T)).
+Proof. intros. apply (C11_still_life_all_modes m R C 4 4); [vm_compute; reflexivity|lia..]. Qed.
+Example ex_boat_still : forall (m : mode) (R C : nat) (a b : Z) (T : nat), (5 <= R)%nat -> (5 <= C)%nat ->
+  arr2_of (evolve2d_mode_fixed gol_as_rule2 store_id m 1 Moore tt [pattern_grid R C a b BOAT] (S T))
+  = Ok (repeat (pattern_grid R C a b BOAT) (S T)).
+Proof. intros. apply (C11_still_life_all_modes m R C 3 3); [vm_compute; reflexivity|lia..]. Qed.
+Example ex_tub_still : forall (m : mode) (R C : nat) (a b : Z) (T : nat), (5 <= R)%nat -> (5 <= C)%nat ->
+  arr2_of (evolve2d_mode_fixed gol_as_rule2 store_id m 1 Moore tt [pattern_grid R C a b TUB] (S T))
+  = Ok (repeat (pattern_grid R C a b TUB) (S T)).
+Proof. intros. apply (C11_still_life_all_modes m R C 3 3); [vm_compute; reflexivity|lia..]. Qed.
+Example ex_beehive_fun : forall R C a b i j, 5 <= R -> 6 <= C ->
+  tstep R C (emb R C a b (of_list BEEHIVE)) i j = emb R C a b (of_list BEEHIVE) i j.
+Proof. intros. apply (C11_still_life_general R C 3 4); [vm_compute; reflexivity|lia..]. Qed.
+(* a beehive straddling the boundary of a 5 x 6 torus is a real, non-empty grid; a non-still pattern fails the check *)
+Example nv_beehive_grid : pattern_grid 5 6 4 4 BEEHIVE =
+  [[0;1;0;0;1;0]; [1;0;0;0;0;1]; [0;0;0;0;0;0]; [0;0;0;0;0;0]; [1;0;0;0;0;1]]
+  /\ still_check 1 3 BH = false /\ still_check 3 3 G0 = false.
+Proof. vm_compute. repeat split; reflexivity. Qed.
+(* C11_fixed_point_stays applies where the halo theorem does not: a loaf on a 4 x 4 torus (no halo) is not a
+   fixed point, two full rows on a 4 x 3 torus ... the hypothesis life_step_grid g = g is decidable per grid *)
+Example nv_fixed_point : life_step_grid (pattern_grid 6 6 4 4 LOAF) = pattern_grid 6 6 4 4 LOAF
+  /\ life_step_grid (pattern_grid 4 4 0 0 LOAF) <> pattern_grid 4 4 0 0 LOAF
+  /\ life_step_grid [[1;1;0];[1;1;0];[0;0;0]] = [[1;1;0];[1;1;0];[0;0;0]].
+Proof. vm_compute. repeat split; try reflexivity. discriminate. Qed.
+(* the four glider orientations (phase 0), and a rotated glider (direction (-1, 1), phase 2) straddling the
+   corner of a 5 x 7 torus: all three engines move it to the displaced position, which is a different grid *)
+Example nv_glider_orientations : map (fun d => gl d 0) [0; 1; 2; 3]%nat =
+  [[(0,1);(1,2);(2,0);(2,1);(2,2)]; [(1,2);(2,1);(0,0);(1,0);(2,0)];
+   [(2,1);(1,0);(0,2);(0,1);(0,0)]; [(1,0);(0,1);(2,2);(1,2);(0,2)]]
+  /\ glider_checks = true /\ length dk16 = 16%nat.
+Proof. vm_compute. repeat split; reflexivity. Qed.
+Example nv_glider_rotated_run :
+  forallb (fun m =>
+    match arr2_of (evolve2d_mode_fixed gol_as_rule2 store_id m 1 Moore tt [pattern_grid 5 7 4 6 (gl 3 2)] 5) with
+    | Ok [h0; _; _; _; h4] => zgrid_eqb h4 (pattern_grid 5 7 3 7 (gl 3 2)) && negb (zgrid_eqb h4 h0)
+                              && zgrid_eqb h4 (roll_grid (-1) 1 h0)
+    | _ => false
+    end) [Plain; Memo; Recursive] = true.
+Proof. vm_compute. reflexivity. Qed.
+
 Print Assumptions C11_gol_is_b3s23.
 Print Assumptions C11_gol_blocks512.
 Print Assumptions C11_gol_never_falls_through.
@@ -246,5 +353,12 @@ Print Assumptions C11_life_all_modes_callable.
 Print Assumptions C11_glider_all_modes.
 Print Assumptions C11_block_still_all_modes.
 Print Assumptions C11_blinker_all_modes.
-From CPL Require Import gen.GenFuns GenProps.C11Src. (* source tie: gen/GenFuns.v is regenerated from ca_functions2d.py on every run *)
+Print Assumptions C11_still_life_general.
+Print Assumptions C11_still_life_all_modes.
+Print Assumptions C11_fixed_point_stays.
+Print Assumptions C11_blinker_minimal_period.
+Print Assumptions C11_blinker_minimal_period_vertical.
+Print Assumptions C11_glider_any_direction_period4.
+Print Assumptions C11_glider_any_direction_all_modes.
+From CPL Require Import gen.GenFuns_C11 GenProps.C11Src. (* source tie: gen/GenFuns_C11.v is regenerated from ca_functions2d.py on every run *)
 Theorem C11_source_tie : forall n : list (list Z), src_game_of_life_rule n = gol_rule n. Proof. exact C11_source_translation_agrees. Qed. Print Assumptions C11_source_tie.
